@@ -28,7 +28,7 @@ static bool parseETy(const std::string &s, ETy &e) {
   else if (s == "bool") e = {1, false, true}; else return false;
   return true;
 }
-struct RegionDecl { std::string name, ety, kind, init, ns, role; int64_t cells = 0, size = -1; int align = -1; bool positive = false; std::vector<int64_t> ints; std::vector<double> fps; int id = -1; ETy e; };
+struct RegionDecl { std::string name, ety, kind, init, ns, role; int64_t cells = 0, size = -1; int align = -1; bool positive = false; std::vector<int64_t> ints, zeros; std::vector<double> fps; int id = -1; ETy e; };
 
 static std::string jstr(const json::Object &o, const char *k, const std::string &d = "") { if (auto v = o.getString(k)) return v->str(); return d; }
 static int64_t jint(const json::Object &o, const char *k, int64_t d = 0) { if (auto v = o.getInteger(k)) return *v; return d; }
@@ -70,6 +70,7 @@ int main(int argc, char **argv) {
       d.cells = jint(r, "cells", 1); d.size = jint(r, "size", -1); d.align = (int)jint(r, "align", -1); d.positive = jbool(r, "positive");
       if (auto *ia = r.getArray("ints")) for (auto &x : *ia) d.ints.push_back(*x.getAsInteger());
       if (auto *fa = r.getArray("fps")) for (auto &x : *fa) d.fps.push_back(*x.getAsNumber());
+      if (auto *za = r.getArray("zeros")) for (auto &x : *za) d.zeros.push_back(*x.getAsInteger());
       if (!parseETy(d.ety, d.e)) setupErrors.push_back("bad element type " + d.ety);
       regIx[d.name] = (int)regs.size(); regs.push_back(d);
     }
@@ -106,6 +107,7 @@ int main(int argc, char **argv) {
         else { setupErrors.push_back("bad init " + d.init); break; }
         I.setCell(d.id, c * d.e.esz, v, d.e.esz);
       }
+      for (int64_t c : d.zeros) if (c >= 0 && c < d.cells) I.setCell(d.id, c * d.e.esz, d.e.fp ? cfpAV(0, d.e.esz) : AV::Int(0, d.e.esz), d.e.esz);
     }
     // ---- stages
     json::Array stageReports; bool anyMonitor = false; int monitoredStages = 0;
